@@ -27,7 +27,7 @@ TAG = "c10"
 
 
 def gen_world(seed, tier):
-    return mr.gen_world(seed, CLASSES, want_constraints=1.0, node_p=0.2, tag=TAG)
+    return mr.gen_world(seed, CLASSES, want_constraints=1.0, node_p=0.2, tag=TAG, length_cov_p=0.5)
 
 
 def plans(world, info, seed, tier):
